@@ -144,45 +144,131 @@ def Bot.expectAll (b : Bot) : List Out :=
   (b.row.zipIdx.filter (fun (bell, _) => b.userAssigned bell)).map
     (fun (bell, i) => Out.rExpect bell b.rowNumber i b.hand)
 
-/-- `start_next_row(is_first_row)`; statements in the order of the source. -/
-def Bot.startNextRow (b0 : Bot) (isFirst : Bool) : Bot × List Out :=
-  let b1 : Bot := { b0 with place := 0, rowNumber := if isFirst then 0 else b0.rowNumber + 1 }
-  let justRounds := b1.row == b1.rounds
-  let nextHand := b1.hand
-  let b2 : Bot :=
-    if b1.stopAtRounds && justRounds && !b1.ringingOpening then { b1 with shouldStand := true } else b1
-  let b3 : Bot :=
-    match b2.roundsLeft with
-    | some k => { b2 with calls := earlyAt b2.gen k }
-    | none => b2
-  -- start the method
-  if b3.roundsLeft == some 0 && nextHand != b3.gen.startHand then (b3, [.crash "AssertionError"]) else
-  let (b4, o4) : Bot × List Out :=
-    if b3.roundsLeft == some 0 then
-      let c : Bot := { b3 with roundsLeft := none, ringingRounds := false, ringingOpening := false }
-      if !c.checkNumberOfBells c.gen then
-        ({ c with ringingRounds := true, gen := c.gen.reset }, c.makeCalls ["Stand"])
-      else ({ c with gen := c.gen.reset }, [])
-    else (b3, [])
-  let b5 : Bot :=
-    match b4.roundsLeft with
-    | some k => { b4 with roundsLeft := some (k - 1) }
-    | none => b4
-  let b6 : Bot :=
-    if nextHand && b5.shouldStand then { b5 with shouldStand := false, isRinging := false } else b5
-  let b7 : Bot :=
-    if b6.rowsLeftBeforeRounds == some 0 || (justRounds && b6.rowsLeftBeforeRounds.isSome) then
-      { b6 with rowsLeftBeforeRounds := none, ringingRounds := true }
-    else b6
-  let b8 : Bot :=
-    match b7.rowsLeftBeforeRounds with
-    | some k => { b7 with rowsLeftBeforeRounds := some (k - 1) }
-    | none => b7
-  if !b8.isRinging then (b8, o4)
+/-! #### `start_next_row`: control part
+
+The flags and counters that `start_next_row` reads and writes form a small machine of their own.
+It is written once, statement by statement in the order of the source, and the Bot's
+`startNextRow` below is defined through it, so every theorem about `ctlStep` is a theorem about the
+model of the code. -/
+
+/-- The control fields of the Bot. -/
+structure Ctl where
+  isRinging : Bool
+  ringingRounds : Bool
+  ringingOpening : Bool
+  roundsLeft : Option Nat
+  rowsLeft : Option Nat
+  shouldStand : Bool
+  rowNumber : Nat
+  deriving Repr, DecidableEq
+
+def Bot.ctl (b : Bot) : Ctl :=
+  { isRinging := b.isRinging, ringingRounds := b.ringingRounds, ringingOpening := b.ringingOpening,
+    roundsLeft := b.roundsLeft, rowsLeft := b.rowsLeftBeforeRounds, shouldStand := b.shouldStand,
+    rowNumber := b.rowNumber }
+
+def Bot.withCtl (b : Bot) (c : Ctl) : Bot :=
+  { b with isRinging := c.isRinging, ringingRounds := c.ringingRounds, ringingOpening := c.ringingOpening,
+           roundsLeft := c.roundsLeft, rowsLeftBeforeRounds := c.rowsLeft, shouldStand := c.shouldStand,
+           rowNumber := c.rowNumber }
+
+/-- What `start_next_row` reads besides the control fields. -/
+structure CtlIn where
+  isFirst : Bool
+  /-- `self._row == self._rounds` -/
+  justRounds : Bool
+  stopAtRounds : Bool
+  /-- `row_generator.start_stroke().is_hand()` -/
+  startHand : Bool
+  /-- `_check_number_of_bells()` for the current generator -/
+  fits : Bool
+
+inductive CtlRes where
+  | crash                                    -- the stroke `assert` failed
+  | ok (c : Ctl) (methodStarted : Bool)
+  deriving Repr, DecidableEq
+
+/-- `self._row_number` after the update at the top of `start_next_row`. -/
+def nextRowNumber (c : Ctl) (i : CtlIn) : Nat := if i.isFirst then 0 else c.rowNumber + 1
+
+/-- The method is due to start at this boundary (`self._rounds_left_before_method == 0`). -/
+def startsNow (c : Ctl) : Bool := c.roundsLeft == some 0
+
+/-- `assert next_stroke == self.row_generator.start_stroke()` fails. -/
+def assertFails (c : Ctl) (i : CtlIn) : Bool :=
+  startsNow c && (nextRowNumber c i % 2 == 0) != i.startHand
+
+/-- The control fields after `start_next_row`, statement by statement (assertion passed). -/
+def ctlNext (c : Ctl) (i : CtlIn) : Ctl :=
+  -- self._row_number = 0 / += 1 ;  next_stroke = Stroke.from_index(self._row_number)
+  let rowNumber := nextRowNumber c i
+  let nextHand := rowNumber % 2 == 0
+  -- if self._stop_at_rounds and has_just_rung_rounds and not self._is_ringing_opening_row
+  let shouldStand1 := if i.stopAtRounds && i.justRounds && !c.ringingOpening then true else c.shouldStand
+  -- if self._rounds_left_before_method == 0: start the method
+  let started := startsNow c
+  let ringingRounds1 := if started then !i.fits else c.ringingRounds
+  let ringingOpening1 := if started then false else c.ringingOpening
+  -- if self._rounds_left_before_method is not None: -= 1
+  let roundsLeft1 : Option Nat :=
+    if started then none else match c.roundsLeft with | some k => some (k - 1) | none => none
+  -- if next_stroke.is_hand() and self._should_stand: stand
+  let stand := nextHand && shouldStand1
+  let shouldStand2 := if stand then false else shouldStand1
+  let isRinging2 := if stand then false else c.isRinging
+  -- That's all: rounds now / one clear row
+  let toRounds := c.rowsLeft == some 0 || (i.justRounds && c.rowsLeft.isSome)
+  let rowsLeft2 : Option Nat :=
+    if toRounds then none else match c.rowsLeft with | some k => some (k - 1) | none => none
+  { isRinging := isRinging2, ringingRounds := if toRounds then true else ringingRounds1,
+    ringingOpening := ringingOpening1, roundsLeft := roundsLeft1, rowsLeft := rowsLeft2,
+    shouldStand := shouldStand2, rowNumber := rowNumber }
+
+/-- The control flow of `start_next_row`. -/
+def ctlStep (c : Ctl) (i : CtlIn) : CtlRes :=
+  if assertFails c i then .crash else .ok (ctlNext c i) (startsNow c)
+
+def Bot.ctlIn (b : Bot) (isFirst : Bool) : CtlIn :=
+  { isFirst, justRounds := b.row == b.rounds, stopAtRounds := b.stopAtRounds,
+    startHand := b.gen.startHand, fits := b.checkNumberOfBells b.gen }
+
+/-- Start of `start_next_row`: `self._place = 0`, and the early calls for the coming row when the
+countdown is running. -/
+def Bot.snrPrep (b0 : Bot) : Bot :=
+  match b0.roundsLeft with
+  | some k => { b0 with place := 0, calls := earlyAt b0.gen k }
+  | none => { b0 with place := 0 }
+
+def Bot.resetGen (b : Bot) : Bot := { b with gen := b.gen.reset }
+
+/-- End of `start_next_row`: early return when not ringing, else the next row and the rhythm's
+expectations. -/
+def Bot.snrFinish (b2 : Bot) (o4 : List Out) : Bot × List Out :=
+  if !b2.isRinging then (b2, o4)
   else
-    let (b9, o9) := b8.generateNextRow
-    if o9.any (fun o => match o with | .crash _ => true | _ => false) then (b9, o4 ++ o9)
-    else (b9, o4 ++ o9 ++ b9.expectAll)
+    let (b3, o9) := b2.generateNextRow
+    if o9.any (fun o => match o with | .crash _ => true | _ => false) then (b3, o4 ++ o9)
+    else (b3, o4 ++ o9 ++ b3.expectAll)
+
+/-- `start_next_row(is_first_row)`: the control machine plus the data it moves (place, the early
+calls picked for the coming row, the generator reset and the `Stand` call at method start, the next
+row and the rhythm's expectations). -/
+def Bot.startNextRow (b0 : Bot) (isFirst : Bool) : Bot × List Out :=
+  match ctlStep b0.ctl (b0.ctlIn isFirst) with
+  | .crash => (b0.snrPrep, [.crash "AssertionError"])
+  | .ok c started =>
+    let o4 : List Out := if started && !(b0.checkNumberOfBells b0.gen) then b0.makeCalls ["Stand"] else []
+    Bot.snrFinish ((if started then b0.snrPrep.resetGen else b0.snrPrep).withCtl c) o4
+
+/-- The assignments of `look_to_has_been_called` between `initialise_line` and `start_next_row`:
+the queued generator becomes current, flags and counters are reset, the up-down-in counter is armed. -/
+def Bot.armLookTo (b : Bot) : Bot :=
+  let g := b.nextGen.getD b.gen
+  { b with gen := g, nextGen := none, shouldStand := false, rowsLeftBeforeRounds := none,
+           roundsLeft := if !b.upDownIn then none
+                         else if g.startHand then some Generated.upDownInHand
+                         else some Generated.upDownInBack,
+           isRinging := true, ringingRounds := true, ringingOpening := true }
 
 /-- `look_to_has_been_called(call_time)` -/
 def Bot.lookTo (b : Bot) : Bot × List Out :=
@@ -190,14 +276,7 @@ def Bot.lookTo (b : Bot) : Bot × List Out :=
   | [] => (b, [.rReturn, .crash "IndexError"])
   | treble :: _ =>
     let nUser := (b.rounds.filter b.userAssigned).length
-    let g := b.nextGen.getD b.gen
-    let c : Bot :=
-      { b with gen := g, nextGen := none, shouldStand := false, rowsLeftBeforeRounds := none,
-               roundsLeft := if !b.upDownIn then none
-                             else if g.startHand then some Generated.upDownInHand
-                             else some Generated.upDownInBack,
-               isRinging := true, ringingRounds := true, ringingOpening := true }
-    let (d, o) := c.startNextRow true
+    let (d, o) := b.armLookTo.startNextRow true
     (d, [.rReturn, .rInit b.n (b.userAssigned treble) nUser] ++ o)
 
 /-- `_on_look_to()`: gated on the opening row and on the generator that will be rung. -/
